@@ -73,6 +73,7 @@ void runProxy(const Scn &scn, Out &out)
     out.obs << "end";
     if (tcp) tcp->log = nullptr;
     if (sock) delete sock.data();
+    if (tcp) delete tcp.data();      // a scenario without `new`: nothing took ownership of the transport
     if (upSock) delete upSock.data();
     upstream.close();
     eventTurn();
